@@ -15,7 +15,7 @@ from picosvg.svg_types import SVGPath, union as t_union, intersection as t_inter
 ID = "C13"
 RULE = (
     "Hypothesis draws 1-4 operand paths in a 100x100 frame (convex polygons, pentagrams, rings with same/opposite "
-    "contour direction, random self-intersecting polygons, open polylines, circles/ellipses as cubics, paths with tame "
+    "contour direction, random self-intersecting polygons, bow-ties and opposite-wound pairs whose signed areas cancel exactly, open polylines, circles/ellipses as cubics, paths with tame "
     "quads/cubics; continuous coordinates), a fill rule per operand and an operation among union, intersection, "
     "difference (left fold), remove_overlaps, through picosvg.svg_pathops.* (explicit rules) and through the "
     "shape-level wrappers in svg_types (rules from clip_rule / explicit fill_rules). Oracle: own winding-number "
@@ -247,7 +247,7 @@ _REFUSERS = _refusers()
 
 @st.composite
 def operand(draw):
-    kind = draw(st.sampled_from(["convex", "star", "ring-same", "ring-opp", "random-poly", "random-poly", "open", "ellipse", "curvy", "multi", "refuser"]))
+    kind = draw(st.sampled_from(["convex", "star", "ring-same", "ring-opp", "random-poly", "random-poly", "open", "ellipse", "curvy", "multi", "refuser", "bowtie", "opposite-pair"]))
     if kind == "refuser":
         # a path on which skia-pathops is known to give up (PathOpsError), moved by an integer offset
         base = draw(st.sampled_from(_REFUSERS))
@@ -266,6 +266,18 @@ def operand(draw):
             out.append(["Z", []])
         return out
 
+    if kind == "bowtie":
+        # symmetric bow-tie: the two lobes have exactly cancelling signed areas (integer coordinates)
+        x0, y0 = draw(st.integers(5, 40)), draw(st.integers(5, 40))
+        w, h = draw(st.integers(10, 50)), draw(st.integers(10, 50))
+        return kind, [["M", [x0, y0]], ["L", [x0 + w, y0 + h]], ["L", [x0 + w, y0]], ["L", [x0, y0 + h]], ["Z", []]]
+    if kind == "opposite-pair":
+        # two equal squares drawn in opposite directions: signed areas cancel, both have an interior
+        x0, y0 = draw(st.integers(5, 30)), draw(st.integers(5, 60))
+        a = draw(st.integers(8, 25))
+        gap = draw(st.integers(3, 20))
+        x1 = x0 + a + gap
+        return kind, [["M", [x0, y0]], ["L", [x0 + a, y0]], ["L", [x0 + a, y0 + a]], ["L", [x0, y0 + a]], ["Z", []], ["M", [x1, y0]], ["L", [x1, y0 + a]], ["L", [x1 + a, y0 + a]], ["L", [x1 + a, y0]], ["Z", []]]
     if kind == "convex":
         n = draw(st.integers(3, 7))
         cmds = poly([(cx + r * math.cos(rot + 2 * math.pi * i / n), cy + r * math.sin(rot + 2 * math.pi * i / n)) for i in range(n)])
@@ -323,7 +335,7 @@ def op_case(draw):
     ops = [draw(operand()) for _ in range(n)]
     # Hypothesis likes to repeat draws; identical operands fall under known finding ENGINE-COINCIDENT.
     # Shift the i-th operand by a small index-dependent offset so that repeats are merely near-identical.
-    ops = [(k, cm if k == "refuser" else [[c, [round(v + (0.13 * i if j % 2 == 0 else 0.29 * i), 3) for j, v in enumerate(a)]] for c, a in cm]) for i, (k, cm) in enumerate(ops)]
+    ops = [(k, [[c, [v + (3 * i if j % 2 == 0 else 5 * i) for j, v in enumerate(a)]] for c, a in cm] if k in ("bowtie", "opposite-pair") else cm if k == "refuser" else [[c, [round(v + (0.13 * i if j % 2 == 0 else 0.29 * i), 3) for j, v in enumerate(a)]] for c, a in cm]) for i, (k, cm) in enumerate(ops)]
     rules = [draw(st.sampled_from(["nonzero", "evenodd"])) for _ in range(n)]
     via = draw(st.sampled_from(["pathops", "pathops", "types", "types-explicit"]))
     if op != "intersection" and via == "types-explicit":
